@@ -333,6 +333,11 @@ func Ite(c, a, b *Term) *Term {
 	if a.Op == "ite" && a.Args[0] == c {
 		return Ite(c, a.Args[1], b)
 	}
+	if a.S.K == KBV {
+		if na, nb, _, ok := narrowPair(a, b, 0); ok {
+			return ZExt(Ite(c, na, nb), a.S.W)
+		}
+	}
 	return TF.mk(&Term{Op: "ite", S: a.S, Args: []*Term{c, a, b}})
 }
 
@@ -373,10 +378,59 @@ func Eq(a, b *Term) *Term {
 	if a.Const && b.Op == "ite" && b.Args[1].Const && b.Args[2].Const {
 		return Ite(b.Args[0], Eq(b.Args[1], a), Eq(b.Args[2], a))
 	}
+	if a.S.K == KBV {
+		if na, nb, _, ok := narrowPair(a, b, 0); ok {
+			return Eq(na, nb)
+		}
+		// zext(x) == const that does not fit: false
+		if a.Op == "zext" && b.Const && b.CBig == nil && a.Args[0].S.W < 64 && b.CV > mask(a.Args[0].S.W) {
+			return TFalse
+		}
+		if b.Op == "zext" && a.Const && a.CBig == nil && b.Args[0].S.W < 64 && a.CV > mask(b.Args[0].S.W) {
+			return TFalse
+		}
+	}
 	if a.ID > b.ID {
 		a, b = b, a
 	}
 	return TF.mk(&Term{Op: "=", S: SBool, Args: []*Term{a, b}})
+}
+
+// narrowOf: t == zext(n) for the returned n (k = n's width); constants narrow to their bit length.
+func narrowOf(t *Term) (*Term, int, bool) {
+	if t.Op == "zext" {
+		return t.Args[0], t.Args[0].S.W, true
+	}
+	if t.Const && t.S.W <= 64 && t.CBig == nil {
+		k := 1
+		for k < 64 && (t.CV>>uint(k)) != 0 {
+			k++
+		}
+		if k < t.S.W {
+			return BVConst(k, t.CV), k, true
+		}
+	}
+	return nil, 0, false
+}
+
+func narrowPair(a, b *Term, extra int) (*Term, *Term, int, bool) {
+	if a.Const && b.Const {
+		return nil, nil, 0, false
+	}
+	na, ka, ok1 := narrowOf(a)
+	nb, kb, ok2 := narrowOf(b)
+	if !ok1 || !ok2 {
+		return nil, nil, 0, false
+	}
+	k := ka
+	if kb > k {
+		k = kb
+	}
+	k += extra
+	if k >= a.S.W {
+		return nil, nil, 0, false
+	}
+	return ZExt(na, k), ZExt(nb, k), k, true
 }
 
 func bvBin(op string, a, b *Term) *Term {
@@ -384,6 +438,24 @@ func bvBin(op string, a, b *Term) *Term {
 		panic(fmt.Sprintf("bv %s sort mismatch %v %v", op, a.S, b.S))
 	}
 	w := a.S.W
+	switch op {
+	case "bvadd":
+		if na, nb, _, ok := narrowPair(a, b, 1); ok {
+			return ZExt(bvBin(op, na, nb), w)
+		}
+	case "bvand", "bvor", "bvxor", "bvudiv", "bvurem":
+		if na, nb, _, ok := narrowPair(a, b, 0); ok {
+			return ZExt(bvBin(op, na, nb), w)
+		}
+	case "bvmul":
+		if !(a.Const && b.Const) {
+			na, ka, ok1 := narrowOf(a)
+			nb, kb, ok2 := narrowOf(b)
+			if ok1 && ok2 && ka+kb < w {
+				return ZExt(bvBin(op, ZExt(na, ka+kb), ZExt(nb, ka+kb)), w)
+			}
+		}
+	}
 	if a.Const && b.Const {
 		if w > 64 {
 			if r := foldBig(op, a, b); r != nil {
@@ -481,6 +553,35 @@ func bvBin(op string, a, b *Term) *Term {
 		}
 		if zero(a) {
 			return a
+		}
+		if b.Const && b.CBig == nil && w <= 64 {
+			k := int(b.CV)
+			if b.CV >= uint64(w) {
+				if op != "bvashr" {
+					return BVConst(w, 0)
+				}
+			} else if op == "bvshl" {
+				return Concat(Extract(w-1-k, 0, a), BVConst(k, 0))
+			} else if op == "bvlshr" {
+				return ZExt(Extract(w-1, k, a), w)
+			}
+		}
+	case "bvudiv", "bvurem":
+		if b.Const && b.CBig == nil && b.CV != 0 && b.CV&(b.CV-1) == 0 {
+			k := 0
+			for (uint64(1) << uint(k)) != b.CV {
+				k++
+			}
+			if op == "bvurem" {
+				if k == 0 {
+					return BVConst(w, 0)
+				}
+				return ZExt(Extract(k-1, 0, a), w)
+			}
+			if k == 0 {
+				return a
+			}
+			return ZExt(Extract(w-1, k, a), w)
 		}
 	}
 	return TF.mk(&Term{Op: op, S: a.S, Args: []*Term{a, b}})
@@ -650,6 +751,16 @@ func BVNot(a *Term) *Term {
 func bvCmp(op string, a, b *Term) *Term {
 	if a.S != b.S || a.S.K != KBV {
 		panic(fmt.Sprintf("bvcmp %s sort mismatch %v %v", op, a.S, b.S))
+	}
+	if na, nb, _, ok := narrowPair(a, b, 0); ok {
+		// both operands are zero-extended: non-negative, signed == unsigned
+		uop := op
+		if op == "bvslt" {
+			uop = "bvult"
+		} else if op == "bvsle" {
+			uop = "bvule"
+		}
+		return bvCmp(uop, na, nb)
 	}
 	if a.Const && b.Const {
 		var c int
